@@ -99,4 +99,20 @@ PROPS = {
                  "scripted MessageSender + simnet host, synctest quiescence"],
         shards={"quick": 8, "thorough": 16},
     ),
+    "C03": dict(
+        pkg=".", test="TestVerifC03", model="C03", verdict="C03v", level="other",
+        accept=lambda m, o: m == "-" or o.startswith(m),
+        rule="a case is one routing operation (closest peers, FindPeer, GetValue, SearchValue, FindProviders(Async), "
+             "PutValue, Provide classic/optimistic) on a scripted network of 1-25 peers with failing, undialable and silent "
+             "peers, an arrival order, optional cancellation and clock advances; at the end everything still outstanding "
+             "fails or times out (virtual time) and the harness requires: returned, result channel closed, no panic, no "
+             "goroutine left after Close; non-trivial = faulty peers present and >=3 scheduled events; distinct = case text",
+        explanation="Theorems (Lean, all schedules): the lookup state machine never hits a protocol panic, at most alpha "
+             "queries are in flight, while it runs something is in flight (it never waits for nothing), every peer is "
+             "asked at most once, a terminated search is frozen; counting loop of the optimistic provide and the value "
+             "search producer/consumer protocol (see Props/C03). Observed, not proved: goroutines really exit and "
+             "channels are really closed, on the generated schedules, through synctest (runtime behaviour).",
+        trusted=["scripted MessageSender + simnet host, synctest", "runtime.NumGoroutine for the leak count"],
+        shards={"quick": 8, "thorough": 16},
+    ),
 }
